@@ -930,6 +930,7 @@ func TestVerifC07History(t *testing.T) {
 			cur = c
 			seq := make([]uint8, 0, maxLen)
 			seq = append(seq, uint8(a))
+			c.Sample("history-exhaustive", map[string]any{"universe": U, "max_arrivals": maxLen, "symbols": nsym, "first_two": []any{pns[a], xs[a], pns[b], xs[b]}})
 			count = b == 0 // the one-symbol sequence is evaluated once, in the first case of its row
 			ok := run(seq)
 			count = true
@@ -1122,6 +1123,7 @@ func TestVerifC07Tracker(t *testing.T) {
 						continue
 					}
 					cur = c
+					c.Sample("tracker-exhaustive", map[string]any{"universe": U, "max_steps": maxLen, "symbols": nsym, "time_pattern": pattern, "first_two": []int{a, b}})
 					seq := make([]uint8, 0, maxLen)
 					seq = append(seq, uint8(a))
 					count = b == 0
@@ -1250,6 +1252,9 @@ func TestVerifC07Tracker(t *testing.T) {
 			}
 			c.Eval(fmt.Sprintf("tr/%d/%d/%d/%d/%d/%x/%v/%v/%d/%d", g.mode, c07Bucket(len(ops)), c07Bucket(m.nDups), c07Bucket(maxR), c07Bucket(m.nAcks), m.mustSeen, st.pruned > prunedBefore, m.ignoreBelow > 0, pAE, pPoll))
 			c07Report(c, m, func() any { return map[string]any{"mode": g.mode, "ops": ops} })
+			if k == 0 && !m.failed() {
+				c.Sample(fmt.Sprintf("tracker-random/mode%d", g.mode), map[string]any{"ops": len(ops), "acks_emitted": m.nAcks, "duplicates_dropped": m.nDups, "max_ranges": maxR, "forget_threshold": m.ignoreBelow, "first_ops": ops[:min(len(ops), 12)]})
+			}
 		}
 		st.flush(l)
 		c.End()
